@@ -46,7 +46,12 @@ def renderSpecs (vendors : List (Str × List Str)) : List Str :=
 library reports cache errors -/
 def cdiExit (errorKeys : List Str) : Nat := if errorKeys = [] then 0 else 1
 
-/-- exit status of the `validate` tool: non-zero iff schema validation fails -/
-def validateExit (schemaOK : Bool) : Nat := if schemaOK then 0 else 1
+/-- exit status of the `validate` tool over the documents it is given: non-zero iff schema
+validation fails for at least one of them -/
+def validateExit (schemaOK : List Bool) : Nat := if schemaOK.all id then 0 else 1
+
+/-- the lines the tool prints on standard output: one per valid document, in argument order -/
+def validateLines (docs : List (String × Bool)) : List String :=
+  (docs.filter (·.2)).map (fun d => d.1 ++ ": document is valid.")
 
 end Cdi.Cli
